@@ -34,6 +34,11 @@ pub fn grow_stub<T, A: std::alloc::Allocator>(_d: &mut std::collections::VecDequ
     kani::assume(false);
 }
 
+/// anyhow::Error's destructor dispatches through a vtable; CBMC's function-pointer removal then
+/// explores the drop glue of every error payload, including captured backtraces (nested loops over
+/// frames and symbols: the measured cause of the 300 s time-outs).  Errors are leaked instead.
+pub fn anyhow_drop_noop(_e: &mut anyhow::Error) {}
+
 const T: Duration = Duration::from_millis(0);
 
 
@@ -97,6 +102,7 @@ pub fn do_acquire<'a>(pool: &'a ResourcePool<Res>, h: &mut Option<ResourcePoolIt
 #[kani::stub(alloc::fmt::format, fmt_format_stub)]
 #[kani::stub(std::backtrace::Backtrace::capture, backtrace_stub)]
 #[kani::stub(std::collections::VecDeque::grow, grow_stub)]
+#[kani::stub(<anyhow::Error as core::ops::Drop>::drop, anyhow_drop_noop)]
 pub fn c18_vacuity_twin() {
     let pool = pool_from_arbitrary_valid_state::<1, 2>();
     let g: u64 = kani::any();
@@ -125,3 +131,103 @@ pub fn raw_give_back(pool: &ResourcePool<Res>) {
 pub fn check_count(pool: &ResourcePool<Res>) {
     assert!(pool.count().unwrap() <= pool.size(), "C18: pool holds more than its size");
 }
+
+/// Symbolic refill count 0..=SIZE (nested ifs, no loop counter).
+pub fn refresh_any<const SIZE: usize>(pool: &ResourcePool<Res>) {
+    let d = pool.discriminant().unwrap();
+    kani::assume(d < u64::MAX);
+    let dn = d + 1;
+    pool.set_discriminant(dn).unwrap();
+    pool.clear();
+    if SIZE >= 1 && kani::any() {
+        pool.give_back_resource(Res { generation: dn }, dn).unwrap();
+        if SIZE >= 2 && kani::any() {
+            pool.give_back_resource(Res { generation: dn }, dn).unwrap();
+            if SIZE >= 3 && kani::any() {
+                pool.give_back_resource(Res { generation: dn }, dn).unwrap();
+            }
+        }
+    }
+}
+
+/// One user-visible pool operation, chosen by the solver.
+#[derive(Clone, Copy, PartialEq, Eq, kani::Arbitrary)]
+pub enum Op {
+    Nop,
+    Acquire,
+    GiveBack,
+    RawGiveBack,
+    Refresh,
+    Reset,
+}
+
+/// STEPS solver-chosen operations by USERS users from an arbitrary valid state, invariant checked
+/// after every operation, everything still held returned by a solver-chosen path, pool drained.
+pub fn history<const STEPS: usize, const SIZE: usize, const IDLE: usize, const USERS: usize>() {
+    let pool = pool_from_arbitrary_valid_state::<IDLE, SIZE>();
+    let mut h0: Option<ResourcePoolItem<'_, Res>> = None;
+    let mut h1: Option<ResourcePoolItem<'_, Res>> = None;
+    let mut step = 0;
+    let mut refreshed_while_held = false;
+    while step < STEPS {
+        let op: Op = kani::any();
+        let second: bool = if USERS >= 2 { kani::any() } else { false };
+        match op {
+            Op::Nop => {}
+            Op::Acquire => {
+                if second { do_acquire(&pool, &mut h1) } else { do_acquire(&pool, &mut h0) }
+            }
+            Op::GiveBack => {
+                if second { give_back_any(&pool, &mut h1) } else { give_back_any(&pool, &mut h0) }
+            }
+            Op::RawGiveBack => raw_give_back(&pool),
+            Op::Refresh => {
+                refresh_any::<SIZE>(&pool);
+                if h0.is_some() || h1.is_some() {
+                    refreshed_while_held = true;
+                }
+            }
+            Op::Reset => pool.reset_available_resources().unwrap(),
+        }
+        check_count(&pool);
+        step += 1;
+    }
+    kani::cover!(refreshed_while_held, "witness: item held across a refresh");
+    give_back_any(&pool, &mut h0);
+    give_back_any(&pool, &mut h1);
+    check_count(&pool);
+    assert_idle_all_current(&pool, SIZE);
+    kani::cover!(true, "witness: end of history reachable");
+    std::mem::forget(h0);
+    std::mem::forget(h1);
+}
+
+macro_rules! history_harness {
+    ($name:ident, $steps:expr, $size:expr, $idle:expr, $users:expr) => {
+        #[kani::proof]
+        #[kani::unwind(6)]
+        #[kani::stub(std::sync::Condvar::notify_one, notify_one_noop)]
+        #[kani::stub(std::sync::Condvar::wait_timeout, wait_timeout_cut)]
+        #[kani::stub(alloc::fmt::format, fmt_format_stub)]
+        #[kani::stub(std::backtrace::Backtrace::capture, backtrace_stub)]
+        #[kani::stub(std::collections::VecDeque::grow, grow_stub)]
+        #[kani::stub(<anyhow::Error as core::ops::Drop>::drop, anyhow_drop_noop)]
+        pub fn $name() {
+            history::<$steps, $size, $idle, $users>();
+        }
+    };
+}
+// quick tier
+history_harness!(c18_sym_h3_s2_i1_u1, 3, 2, 1, 1);
+history_harness!(c18_sym_h3_s1_i1_u1, 3, 1, 1, 1);
+history_harness!(c18_sym_h3_s2_i0_u1, 3, 2, 0, 1);
+history_harness!(c18_sym_h2_s2_i2_u2, 2, 2, 2, 2);
+// thorough tier
+history_harness!(c18_sym_h4_s2_i1_u1, 4, 2, 1, 1);
+history_harness!(c18_sym_h4_s1_i1_u1, 4, 1, 1, 1);
+history_harness!(c18_sym_h4_s2_i0_u1, 4, 2, 0, 1);
+history_harness!(c18_sym_h3_s2_i2_u2, 3, 2, 2, 2);
+history_harness!(c18_sym_h4_s2_i2_u2, 4, 2, 2, 2);
+history_harness!(c18_sym_h3_s3_i2_u2, 3, 3, 2, 2);
+history_harness!(c18_sym_h3_s3_i3_u2, 3, 3, 3, 2);
+history_harness!(c18_sym_h5_s2_i1_u1, 5, 2, 1, 1);
